@@ -257,7 +257,10 @@ func (p *Parser) ParsePostfixExpression(left ast.Expression) (ast.Expression, er
 func (p *Parser) ParseFunctionCallExpression(fn ast.Expression) (ast.Expression, error) {
 	ident, ok := fn.(*ast.Ident)
 	if !ok {
-		return nil, errors.New("Function name must be IDENT")
+		return nil, errors.WithStack(&ParseError{
+			Token:   p.curToken.Token,
+			Message: "Function name must be IDENT",
+		})
 	}
 	exp := &ast.FunctionCallExpression{
 		Meta:     ident.GetMeta().Clone(),
